@@ -782,6 +782,13 @@ func (tr *Tr) wfSlice(s Term) Term {
 // assumeWF adds well-formedness facts for a freshly obtained value of type t:
 // slices are well-formed and every container id directly inside exists (<= alloc now).
 func (a *Act) assumeWF(st *State, t types.Type, x Term, depth int) {
+	a.assumeWFInv(st, t, x, depth, true)
+}
+
+// assumeWFInv: withInv false for values read back from a variable of this activation: what was
+// stored there is what is read; assuming the data invariant on it would assume what the
+// construction site has to prove.
+func (a *Act) assumeWFInv(st *State, t types.Type, x Term, depth int, withInv bool) {
 	tr := a.tr
 	if tr.openTerm(x) {
 		return
@@ -791,7 +798,7 @@ func (a *Act) assumeWF(st *State, t types.Type, x Term, depth int) {
 		f = And(app("idsOK", x, st.alloc), app("valOK", x))
 	} else {
 		f = tr.eng.sorts.idsOKTerm(t, x, st.alloc, 0)
-		if _, isStruct := t.Underlying().(*types.Struct); isStruct {
+		if _, isStruct := t.Underlying().(*types.Struct); isStruct && withInv {
 			f = And(f, tr.typeInvFor(t, x, st))
 		}
 	}
